@@ -215,10 +215,15 @@ making it non-empty (found when a seeded mutant was *not* caught, fixed in the l
 
 TAIL = r'''### 6.5 Declined / not decided (honest limits)
 
-* `C09-m2` (`_get_win_drive`: `first += 1` dropped) and `C09-n1` (`consume_path_sep`: `count > 0` -> `count > 1`): both sit in
-  hand-written scanners whose correctness is arithmetic over positions / parities of a character run. A rule that pins the
-  constant would be a frozen source fragment; a sound rule needs a numeric abstract domain over the scanner loop or execution. Not
-  decided; both are listed in `variants.DECLINED_SEEDED`.
+* Four of the 180 seeded changes are not reported by any check (`variants.DECLINED_SEEDED`), for stated reasons:
+  `C09-m2` (`_get_win_drive`: `first += 1` dropped) and `C09-n1` (`consume_path_sep`: `count > 0` -> `count > 1`) sit in hand-written
+  scanners whose correctness is arithmetic over positions / parities of a character run -- a rule that pins the constant would be a frozen
+  source fragment, a sound rule needs a numeric domain over the scanner loop or execution; `C10-p1` (`_GlobSplit.split`: the empty-pattern
+  fallback moved below the read of `parts[0]`) needs "the list is non-empty here" for every non-empty pattern, which is a fact about the
+  scanner's output, not about the shape of the code; `C06-p3` (the symlink test moved from the caller of `_glob_dir` into the callee, after
+  the listing, with a new parameter) changes the arity of a function of the pinned vocabulary: the table of `_glob_dir` is reported *not
+  evaluable* (exit 2) -- undecided, which is honest but is not a detection, and deciding it needs an interprocedural effect order
+  ("scandir before the link test") across a signature the rule does not know.
 * Everything listed as "Not decided" in section 3 stays not decided: the *composition* of fragments for every pattern, result sets on
   real trees, Bash equivalence, thread interleavings, `re.error` from unbalanced output.
 * Rules that are still syntactic (they look at statement structure, not at values) and could in principle alarm on an unusual
@@ -237,7 +242,7 @@ TAIL = r'''### 6.5 Declined / not decided (honest limits)
 `./check <ID> --tier thorough` = quick pass + `variants.run_variants_for(ID)`: every breaking variant that lists ID must make the
 check exit 1 with a violated obligation whose key names the edited construct; every neutral variant must leave all 20 checks at
 exit 0; every confirmed seeded mutant of the property (6.4) must be reported by the property's own check. A failure is
-`ANALYSIS-ERROR` (exit 2). Current: 115/115 breaking variants caught, 20/20 neutral variants silent.
+`ANALYSIS-ERROR` (exit 2). every neutral refactoring of 6.7 must leave the property's check at exit 0. Current: 115/115 breaking variants caught, 20/20 neutral variants silent.
 
 '''
 
@@ -265,7 +270,7 @@ def seeded_table() -> str:
             how = 'other property'
         else:
             first = '-'
-            how = '**no** (declined, 6.5)' if sid in ('C09-m2', 'C09-n1') else '**no**'
+            how = '**no** (declined, 6.5)' if sid in ('C09-m2', 'C09-n1', 'C10-p1', 'C06-p3') else '**no**'
             stats['declined'] += 1
         rows.append(f'| {sid} | {(m.get("summary") or "")[:150].replace("|", "/")} | {how} | `{first}` |')
     head = ('### 6.4 Seeded changes (`/verif/seeded/`): independent mutants and what catches them\n\n'
